@@ -98,6 +98,28 @@ IndepOKFor(a, b) ==
      /\ DenElems(AndIndep(a, b)) = And(a, b) /\ IsPartition(AndIndep(a, b))
      /\ Compress(SeqOf(AndIndep(a, b))) = Elems(And(a, b))
 
+(* --- condition(f, v, b) at t: every element is conditioned on both sides; elements whose prime became false are     *)
+(* dropped; an element whose prime became true ends the loop with its conditioned sub; the rest goes through              *)
+(* canonicalize (compress + trimming).  SkipTrim = TRUE is a "the subs are untouched, so only the primes need work"      *)
+(* shortcut that goes straight to the unique table (compression only): it must FAIL (a node {(p,T),(~p,F)} survives).    *)
+CondElems(f, v, b) == {<<Cond(e[1], v, b), Cond(e[2], v, b)>> : e \in {x \in Elems(f) : Cond(x[1], v, b) # {}}}
+CondValue(f, v, b, skipTrim) ==          \* [node |-> TRUE/FALSE, f |-> the function pointed to, es |-> elements of an allocated node]
+  LET es == CondElems(f, v, b)
+      full == {e \in es : e[1] = Assign}
+  IN IF full # {} THEN [node |-> FALSE, f |-> (CHOOSE e \in full : TRUE)[2], es |-> {}]      \* early return: the prime became true
+     ELSE IF skipTrim THEN [node |-> TRUE, f |-> DenElems(es), es |-> Compress(SeqOf(es))]      \* a decision node whatever its shape
+     ELSE [node |-> FALSE, f |-> Trimmed(Compress(SeqOf(es))), es |-> {}]
+CondOKFor(f, v, b) ==
+  LET es == CondElems(f, v, b) IN
+  /\ DenElems(es) = Cond(f, v, b)                                        \* C03: the function
+  /\ IsPartition(es)                                                     \* the conditioned primes are still a partition
+  /\ Compress(SeqOf(es)) = Elems(Cond(f, v, b))                          \* C04: compression yields the canonical list
+  /\ CondValue(f, v, b, FALSE).f = Cond(f, v, b)                           \* and trimming / the early return the right pointer
+(* the shortcut variant returns a node although the function is denoted by a trimmed pointer (a sub-diagram or a constant) *)
+IsTrimmable(es) == es = {} \/ (Cardinality(es) = 1) \/ (Cardinality(es) = 2 /\ {e[2] : e \in es} = {Assign, {}})
+SkipTrimOKFor(f, v, b) ==
+  LET r == CondValue(f, v, b, TRUE) IN r.node => ~IsTrimmable(r.es)
+
 -----------------------------------------------------------------------------
 VARIABLE fa
 AllF == SUBSET Assign
@@ -109,4 +131,6 @@ CartesianOK == \A b \in AllF : CartesianOKFor(fa, b)
 DescOK == \A d \in AllF : DescOKFor(fa, d)
 IndepOK == \A b \in AllF : IndepOKFor(fa, b)
 ElemsOK == DenElems(Elems(fa)) = fa /\ IsPartition(Elems(fa))
+CondOK == \A v \in Vars, b \in BOOLEAN : CondOKFor(fa, v, b)
+SkipTrimOK == \A v \in Vars, b \in BOOLEAN : SkipTrimOKFor(fa, v, b)
 =============================================================================
